@@ -452,6 +452,17 @@ func (w *world) query(c *cnode, gkeys []int) (obs queryObs) {
 		return
 	}
 	final := shardCtx.SeriesIDsAfterFiltering
+	// tag value ids of every group, then ONE CollectTagValues call per grouping key for all of them, as the query path
+	// does (query/operator tag values collect): the names of several values are read in one pass over the dictionary
+	type grp struct {
+		sid uint32
+		ids []uint32
+	}
+	var groups []grp
+	perKey := make([]*roaring.Bitmap, len(gkeys))
+	for i := range perKey {
+		perKey[i] = roaring.New()
+	}
 	for _, hk := range final.GetHighKeys() {
 		container := final.GetContainer(hk)
 		dl := &flow.DataLoadContext{ShardExecuteCtx: shardCtx, SeriesIDHighKey: hk, LowSeriesIDsContainer: container, IsGrouping: true}
@@ -466,18 +477,29 @@ func (w *world) query(c *cnode, gkeys []int) (obs queryObs) {
 				return
 			}
 			keyBytes := []byte(dl.GroupingSeriesAgg[ref].Key)
-			var vals []string
+			g := grp{sid: uint32(hk)<<16 | uint32(low)}
 			for i := range gkeys {
 				vidv := binary.LittleEndian.Uint32(keyBytes[i*4:])
-				m := map[uint32]string{}
-				if err := w.meta.CollectTagValues(sctx.GroupByTagKeyIDs[i], roaring.BitmapOf(vidv), m); err != nil {
-					obs.Err = "collect: " + err.Error()
-					return
-				}
-				vals = append(vals, m[vidv])
+				g.ids = append(g.ids, vidv)
+				perKey[i].Add(vidv)
 			}
-			obs.Groups[uint32(hk)<<16|uint32(low)] = vals
+			groups = append(groups, g)
 		}
+	}
+	names := make([]map[uint32]string, len(gkeys))
+	for i := range gkeys {
+		names[i] = map[uint32]string{}
+		if err := w.meta.CollectTagValues(sctx.GroupByTagKeyIDs[i], perKey[i], names[i]); err != nil {
+			obs.Err = "collect: " + err.Error()
+			return
+		}
+	}
+	for _, g := range groups {
+		var vals []string
+		for i, id := range g.ids {
+			vals = append(vals, names[i][id])
+		}
+		obs.Groups[g.sid] = vals
 	}
 	return
 }
